@@ -409,6 +409,22 @@ def specEdges (inp : Input) (cands : List (Option Url)) : List (Option Url × Ur
   cands.flatMap (fun d =>
     ((refsAt inp d).filter (fun r => decide (r.form ≠ Form.internal))).map (fun r => (d, resolvePath d r.url)))
 
+/-! ### the caching reader `URIMapCache` (loader_uri_reader.go; `DefaultReadFromURI` is `URIMapCache(ReadFromURIs(…))`)
+
+The loader hands every location to `ReadFromURIFunc`; when that is `URIMapCache(reader)`, the locations that reach
+the underlying `reader` are the ones not yet cached.  A relative file path is never cached; any other location is
+cached once a read of it has succeeded. -/
+
+/-- `location.Scheme == "" || location.Scheme == "file"` and `!filepath.IsAbs(location.Path)`: not cached -/
+def Url.cacheable (u : Url) : Bool := !((u.scheme == "" || u.scheme == "file") && !u.rooted)
+
+/-- the sub-sequence of `log` that reaches the reader wrapped by `URIMapCache`, given the locations cached so far -/
+def cacheFilter (inp : Input) : List Url → List Url → List Url
+  | _, [] => []
+  | cached, u :: rest =>
+    if u ∈ cached then cacheFilter inp cached rest
+    else u :: cacheFilter inp (if u.cacheable && (storeAt inp u).isSome then u :: cached else cached) rest
+
 /-! ### the walked positions (what the order of a node's `kids` stands for)
 
 (function, callee, component argument, enclosing loops) in source order; `sorted(m)` = the keys of map `m` in sorted
